@@ -179,10 +179,32 @@ def check_recv_var(func, trynode, var):
     need(not [a for a in assigns if hl[0] <= a.lineno <= hl[1]], "%s: guard variable %s assigned inside a handler" % (func.name, var))
 
 
+ALIASES = {}      # local name -> call kind, for the function being analysed: `current_job = self.job` ... `current_job()`
+
+
+def find_aliases(func):
+    out = {}
+    for n in ast.walk(func):
+        if isinstance(n, ast.Assign) and len(n.targets) == 1 and isinstance(n.targets[0], ast.Name) \
+                and isinstance(n.value, ast.Attribute) and isinstance(n.value.value, ast.Name) and n.value.value.id == "self" \
+                and n.value.attr in ATTR_KINDS:
+            out[n.targets[0].id] = ATTR_KINDS[n.value.attr]
+    # a name that is also bound to something else is no alias
+    for n in ast.walk(func):
+        if isinstance(n, ast.Name) and isinstance(n.ctx, ast.Store) and n.id in out:
+            binds = [a for a in ast.walk(func) if isinstance(a, ast.Assign) and any(isinstance(t, ast.Name) and t.id == n.id for t in a.targets)]
+            if any(not (isinstance(a.value, ast.Attribute) and isinstance(a.value.value, ast.Name) and a.value.value.id == "self"
+                        and ATTR_KINDS.get(a.value.attr) == out[n.id]) for a in binds):
+                out.pop(n.id, None)
+    return out
+
+
 def call_kind(node):
     if not isinstance(node, ast.Call):
         return None
     f = node.func
+    if isinstance(f, ast.Name) and f.id in ALIASES:
+        return ALIASES[f.id]
     if isinstance(f, ast.Name) and (f.id == "method" or (any(isinstance(a, ast.Starred) for a in node.args)
                                                         and any(k.arg is None for k in node.keywords))):
         return "KMethod"      # <callable>(*vargs, **kwargs): the call of the user's method, whatever the local is called
@@ -223,6 +245,8 @@ def analyse(func, cname, clsnode=None, skeleton=()):
     sites, anchors, counts = [], [], {}
     lines = {}
     helper_lines = []
+    ALIASES.clear()
+    ALIASES.update(find_aliases(func))
     cur_lines = [lines]
     helpers = {}
     if clsnode is not None:
@@ -421,8 +445,15 @@ def reply_rule(func):
         return isinstance(node, ast.BinOp) and isinstance(node.op, ast.BitAnd) and isinstance(node.left, ast.Name) \
             and node.left.id == "request_flags" and isinstance(node.right, ast.Attribute) and node.right.attr == "FLAGS_ONEWAY"
 
-    ifs = [st for st in h.body if isinstance(st, ast.If)]
-    need(len(ifs) == 3 and isinstance(h.body[0], ast.Assign) and len(h.body) == 4, "reply handler: unexpected statement sequence")
+    hbody = h.body
+    if len(hbody) == 1 and isinstance(hbody[0], ast.Try) and not hbody[0].handlers and not hbody[0].orelse and hbody[0].finalbody:
+        # try: <the handler> finally: <cleanup>  — the cleanup must not decide anything about the exception
+        for st in hbody[0].finalbody:
+            need(not contains(st, (ast.Raise, ast.Return, ast.Break, ast.Continue)) and not any(call_kind(n) for n in ast.walk(st)),
+                 "reply handler: the finally clause does more than clean up")
+        hbody = hbody[0].body
+    ifs = [st for st in hbody if isinstance(st, ast.If)]
+    need(len(ifs) == 3 and isinstance(hbody[0], ast.Assign) and len(hbody) == 4, "reply handler: unexpected statement sequence")
     pm, outer, rer = ifs
     # if msg: request_seq = ...; request_serializer_id = ...   (no raise / call of interest)
     need(not contains(pm, (ast.Raise, ast.Return, ast.Call)), "reply handler: unexpected statements in the pyroMsg branch")
